@@ -8,6 +8,7 @@ from fractions import Fraction
 from . import nf
 from .nf import RF, as_rf
 from . import interp as I
+from .facts import strip_generics
 
 
 def deref(v):
@@ -994,6 +995,57 @@ def _adaptor(ip, st, t, a, rt):
     ip.closure_runs.append({'term': t, 'closure': path, 'stream': I.frozen(a[0]), 'item': item, 'result': res,
                             'events': ip.events[n0:], 'body': st.body, 'adaptor': (t.get('callee') or '').rsplit('::', 1)[-1]})
     return NotImplemented
+
+
+# --- `for x in stream.filter(p) { body }`  ==  `for x in stream { if p(&x) { body } }` ---------------------------------------
+@regx(r"^<std::iter::Filter<I, P> as std::iter::Iterator>::next$")
+def _filter_next(ip, st, t, a, rt):
+    """Filter::next on a filter built over a crate-local stream, inside a loop that carries the filter: the item is the underlying stream's
+    next item, and everything that follows in this iteration runs under `item is None or p(&item)` (core::iter::Filter::next = inner.find(p)).
+    The underlying stream's state is a per-loop symbol (congruent within one iteration).  Anything else stays opaque."""
+    if not (a and isinstance(a[0], I.Ref)):
+        return NotImplemented
+    cur = deref(a[0])
+    if not isinstance(cur, I.Sym):
+        return NotImplemented
+    init = ip.loop_inits.get(cur.atom.id)
+    init = deref(init) if init is not None else None
+    # look through into_iter (identity on iterators)
+    for _ in range(3):
+        if isinstance(init, I.Sym) and init.atom.kind == 'app' and str(init.atom.name).endswith('IntoIterator>::into_iter') and len(init.atom.args) == 1:
+            init = init.atom.args[0]
+    if not (isinstance(init, I.Sym) and init.atom.kind == 'app' and init.atom.name == 'call:std::iter::Iterator::filter' and len(init.atom.args) == 2):
+        return NotImplemented
+    inner, clos = init.atom.args
+    if not (isinstance(clos, I.St) and isinstance(clos.adt, str) and clos.adt.startswith('closure:')):
+        return NotImplemented
+    ity = (inner.adt if isinstance(inner, I.St) and isinstance(inner.adt, str) else getattr(inner, 'ty', None) or '').strip()
+    bare = lambda x: re.sub(r'<.*$', '', x.strip().lstrip('&').replace('mut ', '', 1).strip())
+    key = bare(ity)
+    cands = [p_ for p_ in ip.facts.by_path if p_.endswith(' as std::iter::Iterator>::next') and bare(p_[1:].split(' as ')[0]) == key]
+    if len(cands) != 1:
+        return NotImplemented
+    state = inner if isinstance(inner, I.St) else I.Sym(nf.app_atom('iterstate', cur.atom, I.frozen(inner)), ity)
+    r = ip.call_path(cands[0], [ip.ref_to(state, '&mut ' + ity, mut=True)], rt, st, dict(t, callee='std::iter::Iterator::next', resolved=cands[0]))
+    try:
+        item = I.get_field(I.downcast(r, 'Some'), 0)
+        keep = call_fn_value(ip, clos, [ip.ref_to(item)], 'bool')
+    except (I.AnalysisIncomplete, I.Diverge, TypeError, KeyError):
+        return NotImplemented
+    if not isinstance(keep, I.B):
+        return NotImplemented
+    if not isinstance(r, I.Sym):
+        return NotImplemented
+    some = I.b_cmp('==', RF.atom(nf.app_atom('discr', r.atom)), RF.const(1))      # Option: None = 0, Some = 1
+    st.guard = st.guard + (I.b_or(I.b_not(some), keep),)
+    # the loop's stream read IS the read of the underlying stream: present it as such to the rules (same terminator, inner callee)
+    for e in reversed(ip.events):
+        if e.term is t and e.result is None and e.kind == 'call':
+            e.callee = cands[0]
+            e.fargs = [I.frozen(state)]
+            e.extra['through_filter'] = clos.adt
+            break
+    return r
 
 
 # --- searches over a fixed-size array: unrolled (the element count is known from the type or the literal) --------------
